@@ -91,8 +91,8 @@ def entries(prop: str | None = None):
     out = []
     for mp in sorted(glob.glob(os.path.join(HERE, "seeded", "*", "meta.json"))):
         m = json.load(open(mp))
-        if m.get("superseded"):
-            continue
+        if m.get("superseded") or m.get("not_claimed"):
+            continue  # (a change recorded as outside static reach is kept in the archive and in DESIGN's table, not re-run as an expectation)
         if prop is None or m["property"] == prop:
             out.append({"id": "seed:" + m["id"], "kind": "seed", "prop": m["property"], "patch": os.path.join(os.path.dirname(mp), "patch.diff")})
     for mp in sorted(glob.glob(os.path.join(HERE, "refactors", "*", "meta.json"))):
